@@ -460,7 +460,10 @@ func (vs *ValidatorStore) GetEndBlockUpdate(ctx *ValidatorContext, req types.Req
 			}
 
 			// delete validator who's power is 0
-			if validator.Power <= 0 {
+			// (the record read above is the previous block's: a stake delivered in this
+			// block revives the validator, its current record must stay)
+			current, curErr := vs.Get(validator.Address)
+			if validator.Power <= 0 && (curErr != nil || current.Power <= 0) {
 				vKey := append(vs.prefix, validator.Address.Bytes()...)
 				fmt.Println("Deleting :", validator.Address.String())
 				//TODO: validator delete will not properly delete the item because of state implementation
